@@ -32,6 +32,7 @@ REQUIRED = ["packet_ins", "buffered", "unbuffered_pool_full", "released_by_packe
             "bogus_uses", "truncated",
             "ids_reused_after_release", "advertised_buffer_counts_read",
             "packet_outs_with_buffer_id_and_data", "stale_or_bogus_ids_in_flow_mods",
+            "stale_or_bogus_ids_in_packet_outs_carrying_data",
             "padded_frames_missing_the_table",
             "misses_on_a_port_that_may_not_cause_packet_ins"]
 TIMEOUT = {"quick": 900, "thorough": 7200}
@@ -311,6 +312,14 @@ def run_history (case, rep):
           hard_timeout=0, priority=1, buffer_id=bid, out_port=0xffff, flags=0,
           actions=acts))
         rep.count("stale_or_bogus_ids_in_flow_mods")
+      elif k in ("stale", "bogus") and (op[1] + op[2]) % 3 == 1:
+        # ... or by a packet_out that also carries a frame of its own: the id
+        # is what the message names, it is unknown, nothing is emitted (the
+        # carried frame is no licence to send something else instead)
+        raw_msg = ofwire.enc_message("packet_out", dict(
+          xid=xid, buffer_id=bid, in_port=0xffff, actions=acts,
+          data=frame(998000 + xid, CTRL_DST[0][:5] + b"\xee", 30)))
+        rep.count("stale_or_bogus_ids_in_packet_outs_carrying_data")
       elif k == "po" and (op[1] * 3 + op[2]) % 7 == 0:
         # a packet_out that names the buffer *and* carries data: the id is
         # used (which of the two is sent is not judged)
